@@ -173,9 +173,16 @@ def rule_R5(ck):
             del got[:]
             FH = I.module_get("reports", "FilterHandler")
             f = I.instantiate(FH, [PyFn(lambda I_, a, k: got.append(a) or None, "nested"), dict(ctl)], {})
-            I.call_method(f, "__call__", [I.module_get("reports", prio), ident, ("s", "e", "t")])
+            pr = I.module_get("reports", prio)
+            I.call_method(f, "__call__", [pr, ident, ("s", "e", "t"), ("s2", "e2", "t2")])
+            if got and (len(got[0]) != 4 or got[0][0] is not pr or got[0][1] != ident or tuple(got[0][2:]) != (("s", "e", "t"), ("s2", "e2", "t2"))):
+                return ("changed", repr(got[0])[:200])
             return len(got)
         ps = I.explore(thunk)
+        if len(ps) == 1 and ps[0].kind == "return" and isinstance(ps[0].value, tuple):
+            ck.violation(where, f"a {prio} diagnostic '{ident}' reaches the nested handler as {ps[0].value[1]}; the filter forwards (priority, identifier, spans...) exactly as it received them - "
+                                "the handler decides severity, exit status and rendering from them", construct="filter forwards its arguments unchanged")
+            continue
         if prio == "warning":
             want = ctl[ident] if ident in ctl else (ident in default)
         else:
